@@ -1,4 +1,5 @@
 import SeaQ.Props.C11
+import SeaQ.Props.C11Stmt
 #print axioms SeaQ.Props.C11.expand_step_lit
 #print axioms SeaQ.Props.C11.quoted_kept
 #print axioms SeaQ.Props.C11.expand_step_doubled
@@ -10,3 +11,11 @@ import SeaQ.Props.C11
 #print axioms SeaQ.Props.C11.template_without_marks
 #print axioms SeaQ.Props.C11.inject_step
 #print axioms SeaQ.Props.C11.inject_inline
+#print axioms SeaQ.Props.C11Stmt.rTemplate_eq
+#print axioms SeaQ.Props.C11Stmt.textI_append
+#print axioms SeaQ.Props.C11Stmt.pieceT_pvals
+#print axioms SeaQ.Props.C11Stmt.template_inline_pieces
+#print axioms SeaQ.Props.C11Stmt.textPFrom_vals_append
+#print axioms SeaQ.Props.C11Stmt.template_values_pieces
+#print axioms SeaQ.Props.C11Stmt.C11_statement
+#print axioms SeaQ.Props.C11Stmt.rExEach_values
